@@ -50,7 +50,7 @@ def drive(ctx):
     for zn in ctx.mine(names) + ctx.mine(synth_zone_names(ctx)):
         zr = {"n": zn, "fo": 0}
         trs = zone_transitions(ctx, zn)
-        for (sec, b_, a_) in pick(rnd, trs, (2 if full else 1) if q else 12):
+        for (sec, b_, a_) in pick(rnd, trs, (2 if full else 1) if q else 6):
             for unit in (pick(rnd, UNITS, 2) if q else UNITS):
                 n += 1
                 before = rnd.randrange(1, 4)
